@@ -37,7 +37,8 @@ def shards(tier, seed):
     for i, g in enumerate(common.split(common.ALL_INDEXES, 4)):
         out.append({'name': 'f%d' % i, 'what': 'frames', 'indexes': g,
                     'per': 12 if q else 400})
-    return out
+    return out + common.with_configs([out[0], out[12]], common.ALL_CONFIGS,
+                                     take=2)[2:]
 
 
 def permute_deep(v, rnd):
@@ -180,6 +181,17 @@ def run_case(case, rec):
             if not longkeys and not _check_sorted(ref, rec, case, t):
                 return
             rec.nt(canon.digest(v, ordered=True))
+            # the caller's decimal context must not matter
+            if common.has_decimal(v):
+                for ctx in common.narrow_contexts():
+                    e2 = common.encode_under_context(fn, copy.deepcopy(v),
+                                                     ctx)
+                    if not e2.ok or e2.value != ref:
+                        rec.violation('not-deterministic:decimal-context',
+                                      'the same %s encodes differently under '
+                                      'decimal context %r' % (t, ctx), case)
+                        return
+                rec.count('decimal_contexts_compared')
             # insertion-order independence
             rnd = random.Random(canon.digest(v, ordered=True))
             variants = []
@@ -216,6 +228,20 @@ def run_case(case, rec):
                 rec.count('longkey_tables_fingerprinted')
             if case.get('colliding'):
                 rec.count('colliding_longkey_tables_permuted')
+            # change the caller's object in place and encode it again: the
+            # bytes must be those of a fresh, equal object (no stale cache)
+            w = copy.deepcopy(v)
+            first = call(fn, w)
+            if first.ok and common.mutate_in_place(w):
+                again = call(fn, w)
+                fresh = call(fn, copy.deepcopy(w))
+                if again.ok != fresh.ok or (again.ok and
+                                            again.value != fresh.value):
+                    rec.violation('stale-encoding-after-input-change:' + t,
+                                  'a %s changed in place encodes differently '
+                                  'from an equal fresh %s' % (t, t), case)
+                    return
+                rec.count('encode_change_encode_ok')
             rec.count('ok:' + t)
         elif t == 'method':
             spec = refspec.METHODS[case['index']]
@@ -261,6 +287,22 @@ def run_case(case, rec):
             rec.nt(canon.digest(case, ordered=True))
             if not _check_sorted(r, rec, case, 'frame'):
                 return
+            # same properties object, headers changed in place, sent again
+            if isinstance(c.value.headers, dict) and c.value.headers:
+                common.mutate_in_place(c.value.headers)
+                again = common.lib_marshal(h, case['ch'])
+                c4 = call(commands.Basic.Properties, **dict(
+                    boundary.props_values(c.value)))
+                fresh = common.lib_marshal(header.ContentHeader(
+                    0, case['size'], c4.value), case['ch']) if c4.ok else c4
+                if again.ok != fresh.ok or (again.ok and
+                                            again.value != fresh.value):
+                    rec.violation('stale-encoding-after-input-change:header',
+                                  'properties whose headers table was '
+                                  'changed in place marshal differently from '
+                                  'an equal fresh object', case)
+                    return
+                rec.count('encode_change_encode_ok')
             rec.count('ok:header')
         else:
             b = body.ContentBody(case['body'])
